@@ -298,3 +298,42 @@ PROPS["C19"] = _cw20_prop("C19", 3, C19_CLAUSES, "owner and spender allowance li
     "(invariant by induction over histories), and migrate establishes the mirror from EVERY pre-0.14 table. Tie to the Rust: "
     "on every step of generated histories (incl. a stripped legacy layout followed by migrate) the three query views are "
     "compared in Coq (S_C19) and both listings are compared with the model's tables (measured).")
+
+
+# ------------------------------------------------------------------------------------------
+# cw1 family
+C07_CLAUSES = {1: "relayed messages differ from the submitted ones", 2: "Execute accepted although the caller is neither admin nor covered by its grants",
+               3: "a failed Execute relayed messages", 4: "a call other than Execute emitted messages"}
+C08_CLAUSES = {1: "a failed call changed an allowance", 2: "an admin's Execute or an Execute without bank sends changed an allowance",
+               3: "a subkey's spending changed another subkey's allowance", 4: "spending accepted without a stored, unexpired allowance",
+               5: "spending not deducted exactly per denomination (or beyond what remains)", 6: "spending changed the expiry",
+               7: "IncreaseAllowance changed another subkey's allowance", 8: "IncreaseAllowance: wrong resulting amounts",
+               9: "DecreaseAllowance changed another subkey's allowance", 10: "DecreaseAllowance: wrong resulting amounts (must saturate at zero)",
+               11: "a call that may not touch allowances changed one"}
+C16_CLAUSES = {1: "CanExecute answered differently from the Execute made right after it"}
+C17_CLAUSES = {1: "admin list or frozen flag changed other than by UpdateAdmins/Freeze of a current admin while mutable",
+               2: "an allowance or permission entry changed without an admin's grant call naming it (or the subkey's own spending)"}
+
+
+def mk_cw1_run(eval_index, clauses, proj):
+    def run(prop, tier, seed, replay, coverage):
+        return run_trace_family("cw1", "cw1", eval_index, clauses, proj, prop, tier, seed, replay, coverage)
+    return run
+
+
+CW1_ASSUME = [
+    "theorems are about the Gallina transliteration of cw1-whitelist / cw1-subkeys and cw-utils NativeBalance (Cw1Model.v); "
+    "agreement with the Rust is measured on the explored histories only",
+    "'succeeds' is acceptance by the proxy's handler; the fate of the relayed messages on the chain is the environment's "
+    "(a failing relayed message rolls the whole call back: chain atomicity, written into the model's tx)",
+    "message payload fields beyond kind/recipient/coins are compared by Rust == on the SubMsg vectors (flag `exact`)",
+]
+
+
+def _cw1_prop(pid, idx, clauses, proj, text):
+    return {
+        "id": pid, "props_file": "Props/%s.v" % pid,
+        "coq_targets": ["Props/%s.v" % pid, "Cw1Check.v"], "exec_targets": ["Cw1Check.v"],
+        "run": mk_cw1_run(idx, clauses, proj), "assumptions": CW1_ASSUME, "level_text": text,
+        "design_ref": "DESIGN.md section 6 " + pid,
+    }
